@@ -118,7 +118,7 @@ func FlatView(b *Built, text string, vars map[string]interface{}) (term string, 
 	}
 	term = walk(b.Schema.Query, q.SelectionSet, 0)
 	if failed {
-		return "None", true
+		return "(@None (list ftree))", true
 	}
 	return "(Some " + term + ")", true
 }
